@@ -436,9 +436,8 @@ func discover() []fnRec {
 				kept[i].acc.idx = remap[kept[i].acc.idx]
 			}
 		}
-		if !sent.snap().equal(sent.pristine) {
-			sent.rebuild()
-		}
+		sent.note(sent.snap())
+		sent.ensure()
 		discFuncs, discNotes = kept, notes
 		saveFuncFile()
 	})
